@@ -50,6 +50,9 @@ def random_grammar(rnd, nT=None, nN=None, max_alts=3, max_len=3, p_term=0.55, p_
             for _ in range(rnd.choice(lens)):
                 rhs.append(('t', rnd.randrange(nT)) if rnd.random() < p_term else ('n', rnd.randrange(nN)))
             rules.append(dict(lhs=a, rhs=rhs, prec=None, c=rnd.randint(0, 9), coef=[rnd.randint(1, 9) for _ in rhs]))
+            if rnd.random() < 0.08:
+                # an action that does not assign $$ (typical for an optional element): the value is the zero value
+                rules[-1].update(noassign=True, c=0, coef=[0 for _ in rhs])
     if rnd.random() < p_shuffle:
         rnd.shuffle(rules)            # the rules of one nonterminal need not be written next to each other
     implicit = False
@@ -82,6 +85,7 @@ def twin_actions(g, rnd):
         if k not in by:
             by[k] = (rnd.randint(0, 9), [rnd.randint(1, 9) for _ in r['rhs']])
         r['c'], r['coef'] = by[k][0], list(by[k][1])
+        r.pop('noassign', None)
     for i, t in enumerate(g['terms']):
         t['tag'] = TAGS[i % 3]
     for j, n in enumerate(g['nonterms']):
@@ -182,6 +186,38 @@ def big_grammar(rnd, nt=None, nu=None, square=False):
     rules = [dict(lhs=0, rhs=[('n', 0), ('n', 1)], prec=None, c=1, coef=[1, 3]), dict(lhs=0, rhs=[('n', 1)], prec=None, c=2, coef=[1])]
     for k, (a, b) in enumerate(pairs):
         rules.append(dict(lhs=1, rhs=[('t', a), ('t', b)], prec=None, c=k % 97, coef=[1 + (a % 5), 1 + (b % 7)]))
+    return dict(terms=terms, nonterms=nonterms, precs=[], rules=rules, start=0, big=True)
+
+
+def optional_grammar(rnd):
+    """line : opt body ; opt : /* empty, the action does not assign $$ */ | m ; body : a | body a  -- the value of the
+    empty alternative is the zero value, whatever an earlier parse left behind."""
+    terms = [dict(name='m', lit=rnd.choice([None, '-']), tag='v0', num=None, declared=True), dict(name='a', lit=None, tag='v1', num=None, declared=True)]
+    nonterms = [dict(name='line', tag='v2'), dict(name='opt', tag=rnd.choice(TAGS)), dict(name='body', tag='v1')]
+    rules = [dict(lhs=0, rhs=[('n', 1), ('n', 2)], prec=None, c=rnd.randint(0, 5), coef=[rnd.randint(3, 9), 1]),
+             dict(lhs=1, rhs=[], prec=None, c=0, coef=[], noassign=True),
+             dict(lhs=1, rhs=[('t', 0)], prec=None, c=rnd.randint(1, 9), coef=[rnd.randint(1, 3)]),
+             dict(lhs=2, rhs=[('t', 1)], prec=None, c=0, coef=[1]),
+             dict(lhs=2, rhs=[('n', 2), ('t', 1)], prec=None, c=1, coef=[1, 2], noassign=rnd.random() < 0.3)]
+    if rules[4].get('noassign'):
+        rules[4].update(c=0, coef=[0, 0])
+    return dict(terms=terms, nonterms=nonterms, precs=[], rules=rules, start=0)
+
+
+def wide_grammar(rnd, nt=None, nx=None):
+    """A table with more than 64 columns: 60 keyword terminals, 8 argument terminals, 10 nonterminals.
+    prog : prog item | item ; item : T_i X_(i mod nx) ; X_k : U_k | U_k X_k"""
+    nt = nt or 60
+    nx = nx or 8
+    terms = [dict(name='K%d' % i, lit=None, tag=TAGS[i % 3], num=None, declared=True) for i in range(nt)] + \
+            [dict(name='U%d' % k, lit=None, tag=TAGS[k % 3], num=None, declared=True) for k in range(nx)]
+    nonterms = [dict(name='prog', tag='v0'), dict(name='item', tag='v1')] + [dict(name='x%d' % k, tag=TAGS[k % 3]) for k in range(nx)]
+    rules = [dict(lhs=0, rhs=[('n', 0), ('n', 1)], prec=None, c=1, coef=[1, 3]), dict(lhs=0, rhs=[('n', 1)], prec=None, c=2, coef=[1])]
+    for i in range(nt):
+        rules.append(dict(lhs=1, rhs=[('t', i), ('n', 2 + i % nx)], prec=None, c=i % 89, coef=[1 + i % 4, 2]))
+    for k in range(nx):
+        rules.append(dict(lhs=2 + k, rhs=[('t', nt + k)], prec=None, c=k, coef=[1]))
+        rules.append(dict(lhs=2 + k, rhs=[('t', nt + k), ('n', 2 + k)], prec=None, c=k + 1, coef=[1, 2]))
     return dict(terms=terms, nonterms=nonterms, precs=[], rules=rules, start=0, big=True)
 
 
